@@ -895,3 +895,139 @@ Proof.
   - eexists. reflexivity.
   - vm_compute. discriminate.
 Qed.
+
+(* ------------------------------------------------------------------ walker dispatch (NodeWalker._find_walker) *)
+Lemma cache_of_cons : forall st w k w',
+  cache_of ((w, k) :: st) w' = if N.eqb w w' then k else cache_of st w'.
+Proof. reflexivity. Qed.
+
+(* the cache is transparent: started from the empty caches that __init_subclass__ gives every walker class, every
+   lookup of a history returns the uncached resolution, provided the resolution of a (walker class, class name)
+   does not depend on WHICH class of that name is looked up *)
+Definition cache_inv (spec : N -> str -> option str) (st : wstate) : Prop :=
+  forall w c m, cache_get (cache_of st w) c = Some (Some m) -> spec w c = Some m.
+
+Lemma run_walkers_spec : forall fuel snake has (spec : N -> str -> option str) steps st,
+  cache_inv spec st ->
+  (forall w g c, In (w, g, c) (looks steps) -> resolve fuel g snake (has w) c = spec w c) ->
+  run_walkers fuel snake has st steps = map (fun x => spec (fst (fst x)) (snd x)) (looks steps).
+Proof.
+  intros fuel snake has spec steps. induction steps as [|s steps IH]; intros st Hinv Hres; [reflexivity|].
+  destruct s as [w|w g c]; cbn [run_walkers looks map].
+  - apply IH; [|exact Hres].
+    intros w' c' m. rewrite cache_of_cons. destruct (N.eqb w w'); [cbn; discriminate | apply Hinv].
+  - cbn [fst snd]. unfold find_walker.
+    assert (Hr : resolve fuel g snake (has w) c = spec w c) by (apply Hres; left; reflexivity).
+    destruct (cache_get (cache_of st w) c) as [[m|]|] eqn:E; cbn [fst snd].
+    + f_equal; [symmetry; apply Hinv; exact E|].
+      apply IH; [|intros; apply Hres; right; assumption].
+      intros w' c' m'. rewrite cache_of_cons. destruct (N.eqb w w') eqn:Ew; [|apply Hinv].
+      apply N.eqb_eq in Ew. subst w'. apply Hinv.
+    + f_equal; [exact Hr|].
+      apply IH; [|intros; apply Hres; right; assumption].
+      intros w' c' m'. rewrite cache_of_cons. destruct (N.eqb w w') eqn:Ew; [|apply Hinv].
+      apply N.eqb_eq in Ew. subst w'. cbn [cache_get fst snd].
+      destruct (str_eqb c c') eqn:Ec; [|apply Hinv].
+      apply str_eqb_eq in Ec. subst c'. intros H. injection H as H. rewrite <- Hr. exact H.
+    + f_equal; [exact Hr|].
+      apply IH; [|intros; apply Hres; right; assumption].
+      intros w' c' m'. rewrite cache_of_cons. destruct (N.eqb w w') eqn:Ew; [|apply Hinv].
+      apply N.eqb_eq in Ew. subst w'. cbn [cache_get fst snd].
+      destruct (str_eqb c c') eqn:Ec; [|apply Hinv].
+      apply str_eqb_eq in Ec. subst c'. intros H. injection H as H. rewrite <- Hr. exact H.
+Qed.
+
+Theorem dispatch_cache_transparent : forall fuel snake has (spec : N -> str -> option str) steps,
+  (forall w g c, In (w, g, c) (looks steps) -> resolve fuel g snake (has w) c = spec w c) ->
+  run_walkers fuel snake has [] steps = map (fun x => spec (fst (fst x)) (snd x)) (looks steps).
+Proof.
+  intros. apply run_walkers_spec; [|assumption].
+  intros w c m. cbn. discriminate.
+Qed.
+
+(* single inheritance: along a chain c0 -> c1 -> ... (each class has the next one as its only base) the search
+   finds the method of the nearest class that has one *)
+Fixpoint linear_to (g : cgraph) (chain : list str) : Prop :=
+  match chain with
+  | c :: ((d :: _) as r) => bases_of g c = [d] /\ linear_to g r
+  | _ => True
+  end.
+
+Lemma search_linear : forall g snake has chain fuel m,
+  linear_to g chain -> nearest snake has chain = Some m -> length chain <= fuel ->
+  search fuel g snake has [hd [] chain] = Some m.
+Proof.
+  intros g snake has chain. induction chain as [|c r IH]; intros fuel m Hl Hn Hf; [discriminate|].
+  destruct fuel as [|f]; [cbn in Hf; lia|].
+  cbn [hd search]. cbn [nearest] in Hn.
+  destruct (find has (walker_names snake c)) as [m'|] eqn:E; [exact Hn|].
+  destruct r as [|d r']; [discriminate|].
+  destruct Hl as [Hb Hl]. rewrite Hb. cbn [mem_str existsb negb filter rev app].
+  apply (IH f m Hl Hn). cbn in Hf |- *. lia.
+Qed.
+
+(* whatever the search returns is a method the walker class has, named after the node's class or one of its
+   ancestors *)
+Inductive ancestor (g : cgraph) (c : str) : str -> Prop :=
+| anc_refl : ancestor g c c
+| anc_step : forall d b, ancestor g c d -> In b (bases_of g d) -> ancestor g c b.
+
+Lemma search_sound_gen : forall g snake has c fuel rs m,
+  Forall (ancestor g c) rs -> search fuel g snake has rs = Some m -> m <> [] ->
+  has m = true /\ exists d, ancestor g c d /\ In m (walker_names snake d).
+Proof.
+  intros g snake has c fuel. induction fuel as [|f IH]; intros rs m Hall Hs Hne.
+  - destruct rs; cbn in Hs; [discriminate|]. injection Hs as Hs. subst. contradiction.
+  - destruct rs as [|d rest]; cbn [search] in Hs; [discriminate|].
+    inversion Hall as [|? ? Hd Hrest]; subst.
+    destruct (find has (walker_names snake d)) as [m'|] eqn:E.
+    + injection Hs as Hs. subst m'. apply find_some in E. destruct E as [Hin Hhas].
+      split; [exact Hhas|]. exists d. split; assumption.
+    + refine (IH _ m _ Hs Hne).
+      apply Forall_app. split; [exact Hrest|].
+      apply Forall_rev. apply Forall_forall. intros b Hb. apply filter_In in Hb. destruct Hb as [Hb _].
+      apply (anc_step g c d b Hd Hb).
+Qed.
+
+Theorem dispatch_sound : forall fuel g snake has c m,
+  search fuel g snake has [c] = Some m -> m <> [] ->
+  has m = true /\ exists d, ancestor g c d /\ In m (walker_names snake d).
+Proof.
+  intros fuel g snake has c m. apply search_sound_gen. constructor; [constructor|constructor].
+Qed.
+
+(* with multiple inheritance the search is NOT nearest-first: for a synthesized class of a two-name chain
+   P::Q (P(Q, SynthNode), Q(Node, SynthNode), Node(BaseNode), SynthNode(BaseNode)) a walker that has walk_Node and
+   walk_BaseNode gets walk_BaseNode although Node is an ancestor of P and BaseNode a base of Node *)
+Definition s_P : str := [80]%N.
+Definition s_Q : str := [81]%N.
+Definition s_Node : str := [78; 111; 100; 101]%N.
+Definition s_BaseNode : str := [66; 97; 115; 101; 78; 111; 100; 101]%N.
+Definition s_SynthNode : str := [83; 121; 110; 116; 104; 78; 111; 100; 101]%N.
+Definition ex_graph : cgraph :=
+  [ (s_P, [s_Q; s_SynthNode]); (s_Q, [s_Node; s_SynthNode]); (s_Node, [s_BaseNode]);
+    (s_SynthNode, [s_BaseNode]); (s_BaseNode, []) ].
+Definition ex_has (m : str) : bool := mem_str m [walk_pfx ++ s_Node; walk_pfx ++ s_BaseNode].
+Definition snake_none (c : str) : str := [0]%N.        (* no pythonic spelling in the witness *)
+
+Theorem dispatch_nearest_refuted :
+  exists g has c near far,
+    ancestor g c near /\ In far (bases_of g near) /\ has (walk_pfx ++ near) = true
+    /\ search 64 g snake_none has [c] = Some (walk_pfx ++ far) /\ near <> far.
+Proof.
+  exists ex_graph, ex_has, s_P, s_Node, s_BaseNode. split; [|split; [|split; [|split]]].
+  - apply (anc_step _ _ s_Q); [apply (anc_step _ _ s_P); [constructor|left; reflexivity]|left; reflexivity].
+  - left. reflexivity.
+  - reflexivity.
+  - vm_compute. reflexivity.
+  - discriminate.
+Qed.
+
+(* non-vacuity: the same walker on the single-name class P(Node, SynthNode) and on the generated-module shape
+   P(Q), Q(ModelBase), ModelBase(Node): walk_Node *)
+Example dispatch_examples :
+  search 64 [ (s_P, [s_Node; s_SynthNode]); (s_Node, [s_BaseNode]); (s_SynthNode, [s_BaseNode]); (s_BaseNode, []) ]
+         snake_none ex_has [s_P] = Some (walk_pfx ++ s_Node)
+  /\ linear_to [ (s_P, [s_Q]); (s_Q, [s_Node]); (s_Node, [s_BaseNode]) ] [s_P; s_Q; s_Node; s_BaseNode]
+  /\ nearest snake_none ex_has [s_P; s_Q; s_Node; s_BaseNode] = Some (walk_pfx ++ s_Node).
+Proof. repeat split. Qed.
